@@ -126,7 +126,7 @@ func runC14(c *Ctx) {
 			guarded := false
 			for _, f := range FactsAt(ci.Block()) {
 				if cmp, ok := f.AsCmp(); ok && cmp.Op == token.EQL && IsNilConst(cmp.Y) {
-					if ef := LoadedField(cmp.X); ef != nil && ef.Name() == "err" {
+					if ef := LoadedField(cmp.X); ef != nil && N(ef) == "err" {
 						guarded = true
 					}
 				}
@@ -137,7 +137,7 @@ func runC14(c *Ctx) {
 		})
 	}
 	errIdiomOKFor := func(fld *types.Var, self *ssa.Function) bool {
-		if self.Name() == "Close" {
+		if N(self) == "Close" {
 			return true // terminal: nothing of the adapter runs after Close
 		}
 		for _, f := range unguardedPutters[fld] {
@@ -148,7 +148,7 @@ func runC14(c *Ctx) {
 					g := false
 					for _, fct := range FactsAt(e.Site.Block()) {
 						if cmp, ok := fct.AsCmp(); ok && cmp.Op == token.EQL && IsNilConst(cmp.Y) {
-							if ef := LoadedField(cmp.X); ef != nil && ef.Name() == "err" {
+							if ef := LoadedField(cmp.X); ef != nil && N(ef) == "err" {
 								g = true
 							}
 						}
@@ -252,13 +252,13 @@ func runC14(c *Ctx) {
 				}
 				// terminal error cell of the same owner: accepted only if every OTHER function that releases a
 				// buffer read from this cell does so under a dominating 'err == nil' test of that owner
-				if f.Name() == "err" && !IsNilConst(st.Val) && strings.HasPrefix(cellPath, PathOf(fa.X)+".") && errIdiomOKFor(cellFld, fn) {
+				if N(f) == "err" && !IsNilConst(st.Val) && strings.HasPrefix(cellPath, PathOf(fa.X)+".") && errIdiomOKFor(cellFld, fn) {
 					return true
 				}
 				return false
 			}
 			okClear, path := MustPassToExit(fn, put, clears, IsReturn, nil)
-			c.Check(okClear, "C14.1", FuncName(fn), "release-then-clear:"+cellFld.Name(), put.Pos(),
+			c.Check(okClear, "C14.1", FuncName(fn), "release-then-clear:"+N(cellFld), put.Pos(),
 				"on every path to the exit the cell that held the released buffer is overwritten (or the owner's terminal error cell is set)",
 				"a released buffer stays referenced by "+cellPath+" on a path to the exit ("+witnessString(p, path)+"): a later call can use or release a buffer another RPC already owns")
 		}
@@ -340,10 +340,10 @@ func runC14(c *Ctx) {
 		alias := map[*types.Var]bool{}
 		for i := 0; i < st.NumFields(); i++ {
 			f := st.Field(i)
-			if f.Name() == "err" {
+			if N(f) == "err" {
 				errF = f
 			}
-			if f.Name() == "w" || f.Name() == "r" || f.Name() == "rw" {
+			if N(f) == "w" || N(f) == "r" || N(f) == "rw" {
 				continue
 			}
 			if isPtrTo(f.Type(), "bytes", "Buffer") || isNamed(f.Type(), "io", "Reader") || isNamed(f.Type(), "io", "Writer") {
@@ -381,9 +381,9 @@ func runC14(c *Ctx) {
 					}
 				}
 			}
-			c.Check(guarded, "C14.1", FuncName(fn), "access-only-while-open:"+f.Name(), call.Pos(),
+			c.Check(guarded, "C14.1", FuncName(fn), "access-only-while-open:"+N(f), call.Pos(),
 				"the buffer-aliasing field is touched only under a dominating 'error cell == nil' (not closed / not failed) test",
-				"the adapter reads or writes through "+f.Name()+" without a dominating test of its error cell: after Close released the buffer to the pool, another RPC's bytes can be read or overwritten")
+				"the adapter reads or writes through "+N(f)+" without a dominating test of its error cell: after Close released the buffer to the pool, another RPC's bytes can be read or overwritten")
 		}
 	}
 
@@ -417,7 +417,7 @@ func runC14(c *Ctx) {
 		locked := map[*ssa.Function]bool{}
 		var methods []*ssa.Function
 		for i := 0; i < ms.Len(); i++ {
-			m := p.MethodOf(types.NewPointer(n), ms.At(i).Obj().Name())
+			m := p.MethodOf(types.NewPointer(n), N(ms.At(i).Obj()))
 			if m != nil && m.Blocks != nil {
 				methods = append(methods, m)
 			}
@@ -555,8 +555,8 @@ func runC14(c *Ctx) {
 					if !rwFields[w.Field] || w.Fresh {
 						continue
 					}
-					if _, seen := cells[w.Field.Name()]; !seen {
-						cells[w.Field.Name()] = w.Store
+					if _, seen := cells[N(w.Field)]; !seen {
+						cells[N(w.Field)] = w.Store
 					}
 				}
 			}
